@@ -81,10 +81,15 @@ def run(repo, tier):
                 for c in calls_in(p.events[i].node):
                     if (call_name(c) or "").endswith("set_mxcsr") and c.args:
                         og = origins(c.args[0], p.events, i)
-                        if any(k == "attr" and v.endswith(".saved_state") for k, v in og):
-                            good = True
-                        else:
+                        if not any(k == "attr" and "saved_state" in v.split(".") for k, v in og):
                             detail = f"set_mxcsr argument `{norm_src(c.args[0])}` is not the saved state (origins {sorted(og)})"
+                        elif not _exactly_saved(c.args[0], p.events, i):
+                            detail = (
+                                f"set_mxcsr argument `{norm_src(c.args[0])}` is computed from the saved state and other values "
+                                f"(origins {sorted(og)}): the register does not get back exactly the value it held on entry"
+                            )
+                        else:
+                            good = True
             ok = good
             # restoring must precede clearing saved_state
             if ok:
@@ -178,7 +183,8 @@ def run(repo, tier):
                 for n in ast.walk(f)
                 if isinstance(n, ast.AugAssign) and isinstance(n.op, (ast.BitOr, ast.BitAnd)) and _innermost_func(n) is f
             ]
-            if own:
+            # arithmetic inside __exit__ is R18.1's subject (the restored value must be the saved one, not a computed one)
+            if own and f is not exit_:
                 mask_funcs.append((f, own))
     if len(mask_funcs) != 1:
         raise AnalysisError(f"expected the MXCSR mask arithmetic in exactly one function, found {[f.name for f, _ in mask_funcs]}")
@@ -424,6 +430,30 @@ def run(repo, tier):
         raise AnalysisError("get_mxcsr: no return found")
     # saved_state must be the object returned by get_mxcsr or a copy, never the buffer passed to the stub elsewhere
     return r
+
+
+def _exactly_saved(n, events, at, depth=0):
+    """Is the expression the saved state itself (possibly through local names or a re-wrapping of its .value)?"""
+    from sa.defuse import last_def
+
+    if depth > 20:
+        return False
+    if isinstance(n, ast.Attribute) and n.attr == "saved_state":
+        return True
+    if isinstance(n, ast.Name):
+        ld = last_def(n.id, events, at)
+        return ld is not None and not isinstance(ld[1], ast.AugAssign) and _exactly_saved(ld[1], events, ld[0], depth + 1)
+    if isinstance(n, ast.Attribute) and n.attr == "value":
+        return False
+    if isinstance(n, ast.Call) and len(n.args) == 1 and not n.keywords and (dotted(n.func) or "").split(".")[-1].startswith("c_uint"):
+        a = n.args[0]
+        if isinstance(a, ast.Name):
+            ld = last_def(a.id, events, at)
+            if ld is None or isinstance(ld[1], ast.AugAssign):
+                return False
+            a, at = ld[1], ld[0]
+        return isinstance(a, ast.Attribute) and a.attr == "value" and _exactly_saved(a.value, events, at, depth + 1)
+    return False
 
 
 def _innermost_func(n):
